@@ -21,7 +21,9 @@ META = {
     "level_text": "TLC exhaustively explores every retry chain (4 policies x 11 levels x all coordinator-feasible "
                   "failure descriptions with replica counts 0..MaxCount x retry_num 0..MaxRetries) and checks the "
                   "documented bounds as invariants; each reachable state is then evaluated on the real policy and must "
-                  "give the same (decision, consistency). Exhaustive over the bounded domain, which is the whole "
+                  "retry only where, and at the consistency level at which, the specification retries (the property "
+                  "bounds retrying from above: a decision that retries less, or RETHROW versus IGNORE, is recorded as an "
+                  "observation, not a violation). Exhaustive over the bounded domain, which is the whole "
                   "domain the property quantifies over except larger replica counts.",
     "level_note": "Trusted: TLC, the transcription of the documentation into Retry.tla, the feasibility predicate "
                   "(what a coordinator can report), replica counts bounded by MaxCount (5 quick / 7 thorough).",
@@ -76,9 +78,16 @@ def compare_state(policies, st):
     retried = exp["kind"] in ("RETRY", "RETRY_NEXT_HOST")
     retry_num = st["retries"] - (1 if retried else 0)
     got = evaluate(policies, st["policy"], ev, retry_num)
-    if got != exp:
-        return {"policy": st["policy"], "event": dict(ev), "retry_num": retry_num, "spec": exp, "code": got}
-    return False
+    if got == exp:
+        return False
+    r = {"policy": st["policy"], "event": dict(ev), "retry_num": retry_num, "spec": exp, "code": got}
+    # The property bounds retrying from above ("retry only as documented", "at most once", "never retries", "never
+    # downgrades ..."): a policy that does NOT retry where the documentation allows a retry still satisfies it, and the
+    # property says nothing about RETHROW versus IGNORE.  Only a retry the documentation does not have - or one at
+    # another consistency level than documented - is a violation; other differences are recorded as observations.
+    if got["kind"] in ("RETHROW", "IGNORE"):
+        r["observation"] = True
+    return r
 
 
 def run(ctx):
@@ -105,6 +114,7 @@ def run(ctx):
 
     policies = real_policies()
     mismatches = 0
+    observations = []
     for st in states:
         r = compare_state(policies, st)
         if r is None:
@@ -116,16 +126,21 @@ def run(ctx):
             ctx.nontrivial((st["policy"], tuple(sorted(ev.items())), st["retries"]))
         if ctx.evaluations % 5000 == 1:
             ctx.sample({"policy": st["policy"], "event": ev, "retries_after": st["retries"], "decision": st["dec"]})
-        if r:
+        if r and r.get("observation"):
+            observations.append(r)
+        elif r:
             mismatches += 1
             ctx.violation("policy %(policy)s on %(event)s retry_num=%(retry_num)s: spec says %(spec)s, code says %(code)s" % r,
                           replay=r, signature="%s:%s" % (r["policy"], r["event"]["kind"]))
+    ctx.note("decisions_that_retry_less_than_documented_or_differ_in_rethrow_vs_ignore",
+             {"count": len(observations), "first": observations[:3]})
     # binding self-test: a corrupted expectation must be noticed
     probe = next(s for s in states if s["ev"]["kind"] == "unavailable" and s["policy"] == "Default" and s["retries"] == 1)
     bad = dict(probe)
     bad["dec"] = {"kind": "RETHROW", "cl": "None"}
     bad["retries"] = 0
-    if not compare_state(policies, bad):
+    bad_r = compare_state(policies, bad)
+    if not bad_r or bad_r.get("observation"):
         raise tlc.MachineryError("binding self-test failed: corrupted expectation not detected")
     ctx.note("binding_selftest", {"corrupted_rejected": 1})
     ctx.assumptions += ["failure descriptions restricted to what a coordinator can report (Feasible in Retry.tla)",
@@ -135,5 +150,5 @@ def run(ctx):
 def replay(ctx, r):
     got = evaluate(real_policies(), r["policy"], r["event"], r["retry_num"])
     print("policy=%s event=%s retry_num=%s spec=%s code=%s" % (r["policy"], r["event"], r["retry_num"], r["spec"], got))
-    if got != r["spec"]:
-        ctx.violation("replayed: still differs", replay=r)
+    if got != r["spec"] and got["kind"] not in ("RETHROW", "IGNORE"):
+        ctx.violation("replayed: still retries where / at a level the documentation does not", replay=r)
